@@ -123,4 +123,30 @@ class C(VPCheck):
                 k = dict(clause='value', family='reciprocal-power-refolded')
         except Exception:
             pass
+        try:
+            if k.get('family') is None and _has_power_of_reciprocal(it['spec']) and not _has_power_of_reciprocal(it['_rawtree']):
+                # a non-integer power of a reciprocal ((c*x)**-1)**q was distributed / refolded into x**(-q): the same rule, seen through a product base
+                k = dict(clause='value', family='reciprocal-power-refolded')
+        except Exception:
+            pass
         return k
+
+
+def _has_power_of_reciprocal(t):
+    """some Pow node raises a reciprocal (a power with a negative integer exponent, alone or as the only factor of a product) to a non-integer exponent"""
+    if not isinstance(t, list) or not t:
+        return False
+    if t[0] == 'Pow' and isinstance(t[2], list) and t[2][0] != 'Integer':
+        b = t[1]
+        if b[0] == 'Pow' and b[2][0] == 'Integer' and int(b[2][1]) < 0:
+            return True
+        if b[0] == 'Mul' and any(term[2][0] == 'Integer' and int(term[2][1]) < 0 for term in b[2:]):
+            return True
+    for a in t[1:]:
+        if isinstance(a, list):
+            if a and a[0] == 'T':
+                if _has_power_of_reciprocal(a[1]) or _has_power_of_reciprocal(a[2]):
+                    return True
+            elif _has_power_of_reciprocal(a):
+                return True
+    return False
